@@ -297,6 +297,13 @@ def container_method(ex, recv: VRef, name, args, kwargs, st):
         if name == "clear":
             st.list_store(r, st.list_arr(r), z3.IntVal(0))
             return [Res("val", None, st)]
+        if name == "extend":
+            # list.extend(iterable): the elements of a snapshot of the argument are appended in order (self-extension included)
+            add = arith.as_seq(ex.to_seq_value(args[0], st))
+            cur = arith.as_seq(VSeq(st.list_arr(r), n, ek, ecls))
+            new = arith.seq_concat(cur, add)
+            st.list_store(r, new.arr, z3.simplify(new.n))
+            return [Res("val", None, st)]
         if name == "remove":
             # removes the FIRST occurrence; ValueError if absent
             v = z_int(args[0])
